@@ -31,6 +31,8 @@ var c14Programs = []string{
 	`{ n++ } END { print "end", n }`,
 	`BEGIN { exit }`,
 	`{ c = c + 1; print c, $ }`,
+	// output that does not end in a newline comes before what -o - writes
+	`{ $.n = 1; k++ } END { printf("%f records: ", k) }`,
 	// the empty program, and a program that replaces $ (what -o then writes; selectors that select nothing real)
 	``,
 	`{ $ = 7; print $ }`,
@@ -388,7 +390,7 @@ func c14SelectorConcat(c *fw.Ctx, prog, input, e1, e2 string) *fw.Violation {
 func init() {
 	fw.Register(&fw.Prop{
 		ID: "C14",
-		Rule: "the full product {inline, -f} x {stdin, one file, two files, a missing file, a directory as file, the same file twice, /dev/stdin as a named file, a named pipe filled after it is opened, a /proc file whose reported size is 0} x {no selector, one, two, a failing one, an index past the end} x {no -o, -o -, -o FILE, -o into a missing directory} x 16 programs (empty, replacing $, silent, printing, mutating $, BEGINFILE replacing $, exit, syntax error, runtime error before / after output, $file, END, exit in BEGIN, state across values, CR LF / lone CR / LF CR inside literals and between statements) x 7 inputs (array, object, scalar, two values, empty, malformed, strings full of % directives), on the real binary; " +
+		Rule: "the full product {inline, -f} x {stdin, one file, two files, a missing file, a directory as file, the same file twice, /dev/stdin as a named file, a named pipe filled after it is opened, a /proc file whose reported size is 0} x {no selector, one, two, a failing one, an index past the end} x {no -o, -o -, -o FILE, -o into a missing directory} x 17 programs (printf without a final newline, empty, replacing $, silent, printing, mutating $, BEGINFILE replacing $, exit, syntax error, runtime error before / after output, $file, END, exit in BEGIN, state across values, CR LF / lone CR / LF CR inside literals and between statements) x 7 inputs (array, object, scalar, two values, empty, malformed, strings full of % directives), on the real binary; " +
 			"oracle: the in-process library run of the same program, selectors and inputs (stdout, outcome, JSON output) plus the wrapper laws (exit 0 iff success and nothing refused, diagnostic on stderr otherwise, no stack trace, -o FILE == bytes of -o -, a missing file refused before any output); " +
 			"-r E1 -r E2 == -r E1 followed by -r E2 for 4 stateless (mutating) programs x 2 documents x all ordered pairs of 5 overlapping selectors; and -r E == BEGINFILE { $ = E } for every program without BEGINFILE/ENDFILE x every input x 12 selectors (three end in an index past the end or under a missing member, three call num / json / a method); thorough doubles the three alphabets; a state is (source, -o mode, selector list, -f, library outcome); non-trivial = same",
 		Plan:  func(t fw.Tier) int { return 2 * c14NSource * c14NOut },
